@@ -83,3 +83,12 @@ claim("C29", "model_checking", "TLA+ state machine of a program's life (TLC: con
       "Trusted: TLC, the three program renderers (a rendering that does not compile would show up as a status mismatch and was debugged out on the unchanged tree). "
       ".wasm inputs and the --web path are not rendered.",
       "DESIGN.md section 4 C29")
+
+claim("C30", "model_checking", "TLA+ contract + runner machine (TLC enumerates packages) + one real `wa test` per generated package",
+      "WaTest.tla: a package is a sequence of Test/Example functions, each with a declaration (none, Output, empty Output, Output(panic)) and a behaviour "
+      "(returns after printing nothing/the expected/another line, panics with the declared/another message, traps, exits 3, prints the expected line and then "
+      "traps or panics); Pass(f) is the statement's per-function contract and the runner machine's verdict must be ok exactly when every function selected by "
+      "-run passes. TLC enumerates all 1-function packages and all 2-function packages x 4 -run patterns; quick runs every 1-function package and a seeded "
+      "sample of 180 2-function packages (thorough: 8000) as generated modules through `wa test`; verdict line (ok / FAIL) and exit status are compared.",
+      "Trusted: TLC, the package renderer. Domain restriction: a function declaring a panic does not print before panicking. Open known finding: empty `// Output:`.",
+      "DESIGN.md section 4 C30")
